@@ -838,7 +838,7 @@ func genQuery(r *hlib.Rng, c *config) (query, string) {
 	m8 := chooseMap(c.Maps, "8", lname)
 	nets := c.Nets[m8]
 
-	kind := r.Pick([]int{1, 2, 8, 8, 1, 2, 1, 2, 1})
+	kind := r.Pick([]int{1, 2, 8, 8, 2, 3, 1, 2, 1})
 	addOthers := func() {
 		for r.Chance(1, 3) && len(q.Opts) < 4 {
 			q.Opts = append(q.Opts, otherOpts[r.Intn(len(otherOpts))])
